@@ -590,7 +590,7 @@ def c09(c):
              "between two lengths during 20 000 (quick) / 1 000 000 (thorough) calls. An abort is always an acceptable outcome.",
         exhaustive=False,
         exhaustive_subspaces=["every interleave point (each individual access to sandbox memory) of every variant x content, for each single adversary action"],
-        assumptions=["one adversary action per call (sequences of actions are not enumerated)", "ILP32 model backend; x86-64 trap flag single-stepping"]))
+        assumptions=["single adversary actions are enumerated over every access; sequences of two actions at two accesses are sampled (24 / 400 per variant), longer sequences not driven", "ILP32 model backend; x86-64 trap flag single-stepping"]))
 
 
 # --------------------------------------------------------------------- C18
